@@ -97,6 +97,8 @@ def plan(tier: str, seed: int) -> Plan:
     for name, ops in twice:
         conds.append(Condition(name, "twice", H, "apply_ops", {"ops": ops, "maxn": 1, "twice": True, "deepcopy_ops": True}, T, required=False,
                                bounds="a patch whose container value is edited by its own later operations, applied twice to equal documents"))
+    conds.append(Condition("text-twice", "text", H, "text_twice", {}, T, required=False,
+                           bounds="4 patches applied twice to one JSON text (array length<=2, symbolic value): each application starts from the text"))
     conds.append(Condition("copy-independence", "copy", H, "copy_independent", {}, T, bounds="3 copy-then-mutate patches on a symbolic source"))
     return Plan(
         conditions=conds,
